@@ -70,7 +70,8 @@ def harnesses(tier, findings):
         api = rc.inst(H, VERIF, 2, 2, 1, 0, 1)
         api.what = "hand-over at the end of an acquisition (sink told to stop only after the filter thread finished), whole-runtime coarse run: " + api.what
         return [kern(2, 0), kern(2, 1), kern(2, 3)] + sched_family(2, (2, 3, 4), 2) + [sched(2, 2, (4,), 1, 1), sched(2, 2, (2, 1), 1, 8), sched(2, 2, (3,), 0, 8), api]
-    return [kern(k, ty, timeout=3000) for k in (2, 3) for ty in (0, 1, 2, 3, 5, 6, 7)] + [kern(2, 1, npx=2, timeout=3000)] + \
+    # k=3 with i16 pixels did not reach a verdict in 50 min (kissat); it is left out and listed under 'outside'
+    return [kern(2, ty, timeout=3000) for ty in (0, 1, 2, 3, 5, 6, 7)] + [kern(3, ty, timeout=3000) for ty in (0, 1, 2, 5, 6, 7)] + [kern(2, 1, npx=2, timeout=3000)] + \
            sched_family(2, (2, 3, 4, 5), 3) + sched_family(3, (3, 4, 6), 2) + \
            [sched(2, 2, a, ss, c) for a in ((4,), (2, 2), (1, 3), (5,)) for ss in (0, 1) for c in (1, 8)]
 
@@ -78,6 +79,6 @@ META = dict(
     level="model_checking",
     bounds=dict(quick="kernel: k=2, u8/u16/i16, all pixel values; schedules: every arrival pattern of N in {2,3,4} input frames over <=2 sleeps x stop with/after the last group x chunking {1 frame per map, everything}, sink timing symbolic, output ring one frame deep and pre-filled with arbitrary floats",
                 thorough="kernel: k in {2,3}, all 7 integer types, 2 pixels; schedules: N<=5 over <=3 sleeps, k=3"),
-    outside="k>3; more than 2 pixels per image; f32 input; shape changes inside a window; schedules needing more than POLL_MAX polls of the filter loop",
+    outside="k>3; the arithmetic kernel for k=3 with i16 pixels (no verdict in 50 min); more than 2 pixels per image; f32 input; shape changes inside a window; schedules needing more than POLL_MAX polls of the filter loop",
     assumptions=["environment writer/sink are abstractions of the source and sink threads justified by the source/sink unit harnesses", "boundary scheduling (B)", "float arithmetic bit-blasted by CBMC (IEEE single)"],
 )
